@@ -241,7 +241,8 @@ def build_for_type(repo):
     bia = lex(" ".join(bia))
     check_closed(bia, "Op::is_op_assign")
     froot = src.fn(MATH, "root_ident", "impl Expr")
-    broot = translate(froot["body"], [Rule("R1", "Value :: Ident", "ValueE :: Ident", why="enum renamed in the model")], log, "Expr::root_ident")
+    broot = translate(froot["body"], [Rule("R1", "Value :: Ident", "ValueE :: Ident", why="enum renamed in the model"),
+                                      Rule("R1", "$x . as_ref ( )", "( & * * $x )", why="Box<Expr>::as_ref on a by-reference binding")], log, "Expr::root_ident")
     check_closed(broot, "Expr::root_ident")
     gen = header(log, f"{MATH}: Expr::for_type, arm Expr::BinOp; Expr::root_ident") + prelude("parser.rs") + FT_SPEC + f"""
 impl Op {{
